@@ -20,6 +20,7 @@ pub enum ErrorKind {
     InvalidIntText(Token),
     UnsupportedLiteral(Token),
     InvalidLiteral(Token),
+    NestingTooDeep(Token),
 }
 
 pub struct Error {
@@ -95,6 +96,10 @@ impl Error {
         ErrorKind::UnexpectedEndOfStream.into()
     }
 
+    pub fn nesting_too_deep(token: Token) -> Self {
+        ErrorKind::NestingTooDeep(token).into()
+    }
+
     pub fn unsupported_value_reference_literal(token: Token) -> Self {
         ErrorKind::UnsupportedLiteral(token).into()
     }
@@ -120,6 +125,7 @@ impl Error {
             ErrorKind::InvalidIntText(t) => Some(t),
             ErrorKind::UnsupportedLiteral(t) => Some(t),
             ErrorKind::InvalidLiteral(t) => Some(t),
+            ErrorKind::NestingTooDeep(t) => Some(t),
         }
     }
 }
@@ -229,6 +235,13 @@ impl Display for Error {
             ErrorKind::InvalidLiteral(token) => write!(
                 f,
                 "At line {}, column {} an invalid literal was discovered: {}",
+                token.location().line(),
+                token.location().column(),
+                token
+            ),
+            ErrorKind::NestingTooDeep(token) => write!(
+                f,
+                "At line {}, column {} the type definitions are nested too deeply: {}",
                 token.location().line(),
                 token.location().column(),
                 token
